@@ -300,6 +300,22 @@ def rule_r1(ctx) -> List[R.Inst]:
     return insts
 
 
+def _sign_test_of_gap(txt: str) -> bool:
+    """`diff > 0`, `diff <= 0`, `0 < diff` …: an ordering comparison of the gap with zero (always False for NaN, so it can stand in for
+    isnan — except at gap 0)"""
+    try:
+        e = ast.parse(txt, mode="eval").body
+    except SyntaxError:
+        return False
+    while isinstance(e, ast.UnaryOp) and isinstance(e.op, ast.Not):
+        e = e.operand
+    if isinstance(e, ast.Compare) and len(e.ops) == 1 and isinstance(e.ops[0], (ast.Gt, ast.GtE, ast.Lt, ast.LtE)):
+        sides = [e.left, e.comparators[0]]
+        return any(isinstance(x, ast.Name) and x.id == "diff" for x in sides) and \
+            any(isinstance(x, ast.Constant) and x.value == 0 and not isinstance(x.value, bool) for x in sides)
+    return False
+
+
 def rule_r2(ctx) -> List[R.Inst]:
     M = ctx.M
     rid = "C17.R2"
@@ -460,6 +476,12 @@ def rule_r2(ctx) -> List[R.Inst]:
                             "the last note of a column is sent through the threshold test with its own length: a final hold shorter than "
                             "the threshold is turned into a hit, although the last note keeps its kind and length",
                             construct="last-note case folded into the threshold comparison"))
+    elif und is not None and _sign_test_of_gap(und):
+        insts.append(R.viol(rid, "decision-table", file, inner.lineno,
+                            f"the last note of a column is the one WITHOUT a next note (its gap is NaN); the branch tests the gap's sign "
+                            f"('{und[:60]}'), which also decides for two notes of one column at the same time (gap 0): one of them is "
+                            f"treated as the last note and keeps its length, and which one depends on the row order",
+                            construct=f"gap compared with 0: {und[:80]}"))
     elif und is not None:
         insts.append(R.undec(rid, "decision-table", file, inner.lineno,
                              f"a branch condition ('{und[:60]}') is not one of: last note / was a hit / long enough"))
